@@ -12,7 +12,8 @@ RULE = (
     "help, version}, long and short spellings rotating, x 6 base lines (one and two level command paths, flags, a "
     "detached option value, a multi-valued argument, a '--' tail) x 3 Hypothesis-drawn placements of the switches among "
     "the tokens after the command path (all placements for subsets of size <= 2 in the thorough tier) x handler that "
-    "writes one tagged line per message level to both streams, asks a question with a default and optionally raises; "
+    "writes one tagged line per message level to both streams, asks four questions with defaults (plain, choice, "
+    "confirmation, converting validator) and optionally raises; "
     "plus the same switch tokens copied after '--'; tree: Hypothesis command trees with a valid generated line for one "
     "of their commands (any depth, default sub-commands, aliases) and 1-4 switches inserted after the path; every run on a "
     "drawn pair of output/error streams that do or do not claim ANSI support; session: 2-4 runs (0-2 switches each, own "
@@ -47,6 +48,28 @@ SPELL = {"quiet": ["-q", "--quiet"], "verb": ["-v", "-vv", "-vvv"], "ansi": ["--
 TOKEN_KIND = {t: k for k, ts in SPELL.items() for t in ts}
 
 
+TYPED = "typed\n1\ny\n42\n"
+ANSWERS_TYPED = ["typed", "b", True, 42]
+ANSWERS_DEFAULT = ["dflt", "1", False, "8080"]
+
+
+def ask_all(io):
+    """The questions every handler asks: a plain one, a choice (always validated), a confirmation and one with a
+    converting validator. Interactive answers come from TYPED; without interaction each returns its default as given."""
+    from clikit.ui.components import ChoiceQuestion, ConfirmationQuestion
+    from clikit.ui.components.question import Question
+
+    Question._has_stty_available = lambda self: False  # line-reading path, as on a system without stty
+    answers = [Question("q?", "dflt").ask(io)]
+    answers.append(ChoiceQuestion("pick?", ["a", "b", "c"], "1").ask(io))
+    answers.append(ConfirmationQuestion("sure?", False).ask(io))
+    port = Question("port?", "8080")
+    port.set_validator(int)
+    port.set_max_attempts(2)
+    answers.append(port.ask(io))
+    return answers
+
+
 def build_app(log, raising):
     from clikit.api.args.format import Argument, Option
     from clikit.api.config.command_config import CommandConfig
@@ -63,7 +86,7 @@ def build_app(log, raising):
             for name, flag, _ in LEVELS:
                 io.write_line(L + "info" + G + "out-" + name + L + "/info" + G, flag)
                 io.error_line(L + "info" + G + "err-" + name + L + "/info" + G, flag)
-            log[-1]["answer"] = Question("q?", "dflt").ask(io)
+            log[-1]["answer"] = ask_all(io)
             if raising:
                 raise ValueError("boom from handler")
             return 0
@@ -104,7 +127,7 @@ def build_tree_app(tree, log, raising):
                 for name, flag, _ in LEVELS:
                     io.write_line(L + "info" + G + "out-" + name + L + "/info" + G, flag)
                     io.error_line(L + "info" + G + "err-" + name + L + "/info" + G, flag)
-                log[-1]["answer"] = Question("q?", "dflt").ask(io)
+                log[-1]["answer"] = ask_all(io)
                 if raising:
                     raise ValueError("boom from handler")
                 return 0
@@ -181,7 +204,7 @@ def execute(line, tokens, raising, tree=None, caps=(False, False), session=None)
         app, log = session
         del log[:]
     out, err = stream(caps[0]), stream(caps[1])
-    inp = StringInputStream("typed\n")
+    inp = StringInputStream(TYPED)
     status = app.run(ArgvArgs(["prog"] + tokens), inp, out, err)
     rest = inp.read_line()
     if isinstance(rest, bytes):
@@ -249,12 +272,13 @@ def judge(ctx, case, line, tokens, kinds, res, app, label, part="switches"):
     if rec["interactive"] != ("nointeract" not in kinds):
         fail("C09.no-interaction", "nointeract" not in kinds, rec["interactive"], sig="io-state")
     if "nointeract" in kinds:
-        if rec["answer"] != "dflt" or res["input_left"] != "typed\n":
-            fail("C09.no-interaction", "default answer, input unread", [rec["answer"], res["input_left"]], sig="question")
-        if "q?" in err:  # the prompt goes to the error output (the trace on stdout may quote harness source)
+        if rec["answer"] != ANSWERS_DEFAULT or res["input_left"] != "typed\n":
+            fail("C09.no-interaction", {"answers": ANSWERS_DEFAULT, "input": "unread"}, [rec["answer"], res["input_left"]],
+                 sig="question")
+        if any(p in err for p in ("q?", "pick?", "sure?", "port?")):  # the prompt goes to the error output (the trace on stdout may quote harness source)
             fail("C09.no-interaction", "no prompt written", [out, err], sig="prompt")
-    elif rec["answer"] != "typed":
-        fail("C09.no-interaction", "typed", rec["answer"], sig="interactive-answer")
+    elif rec["answer"] != ANSWERS_TYPED:
+        fail("C09.no-interaction", ANSWERS_TYPED, rec["answer"], sig="interactive-answer")
     want_status = 1 if raising else 0
     if status != want_status:
         fail("C09.position-invariance", want_status, status, sig="status")
